@@ -1,5 +1,6 @@
 import FuModel.Spec.RunRef
 import FuModel.Proofs.ExecOnceWalk
+import FuModel.Proofs.ExecOnceExact
 
 /-!
 # C09 — -exec … ; : one run per file, {} substituted, argv intact, true iff 0
@@ -132,4 +133,24 @@ example :
   rintro ⟨h, _⟩
   cases h
 
+/-- **`find START TEST -exec CMD ARGS ;` / `-execdir … ;`, exactly** (proof: `whole_walk_once_exact`
+    in `Proofs/ExecOnceExact.lean`): for every tree, follow mode, depth range and traversal order
+    and every test that only looks at the entry, the commands started while `process_dir` walks a
+    starting point are those started before followed by exactly one command per in-range reachable
+    entry that satisfies the test, in visit order, each with that entry's substituted argument
+    vector and working directory (`eventOf`) — whatever the commands return. -/
+theorem C09_exact (dir : Bool) (cmd : Bytes) (tmpl : List Bytes) (start : Bytes)
+    (t : Prim) (ht : isTestP t = true) (c : Config) (root : Node Attr) (g : GS)
+    (hH : (refCfg c).depthFirst = true → ¬ HRootLink (refCfg c) (if c.sorted then sortNode root else root)) :
+    let n := if c.sorted then sortNode root else root
+    (processDir c (.and [.prim t, .prim (.exec dir true cmd tmpl)]) start (some root) g).gs.execs =
+      g.execs ++ (visitsN (refCfg c) [] 0 n).flatMap (ranBy dir cmd tmpl start t) :=
+  whole_walk_once_exact dir cmd tmpl start t ht c root g hH
+
+/-- the right-hand side on a concrete run: `find t -type f -execdir c x{} ;` -/
+example :
+    let root : Node Attr := .dir [116] false true { lty := 'd', sty := 'd' }
+      [.leaf [97] .plain { lty := 'f', sty := 'f' }, .dir [98] false true { lty := 'd', sty := 'd' } [.leaf [99] .plain { lty := 'f', sty := 'f' }]]
+    (visitsN (refCfg {}) [] 0 root).flatMap (ranBy true [99] [[120, 123, 125]] [116] (.typeIs 'f')) =
+      [⟨[[99], [120, 46, 47, 97]], some [116]⟩, ⟨[[99], [120, 46, 47, 99]], some [116, 47, 98]⟩] := by decide
 end FuModel.Find.Run
